@@ -51,6 +51,7 @@ Contactable(mode, shape) ==
 PassesFilter(cfg, shape) == cfg.filter = "all" \/ shape # "mark"
 
 \* ------------------------------------------------------------------ ledger
+VOTEMS == 120000       \* Config::vote_duration (default), in ms
 IsV6(s) == s \in {"X6", "Y6"} \/ \E k \in 1..40 : s = "p" \o ToString(k) \o ".v6"
 \* feeding the packets of one step into the request state; `acc` collects what the step must report
 XA0(ds) == [k \in DOMAIN X0(ds) \cup {"acc"} |-> IF k = "acc" THEN <<>> ELSE X0(ds)[k]]
@@ -80,11 +81,14 @@ MonStep(mm, e) ==
       \* in dual-stack mode the vote of any peer is admitted while the address family it speaks for (or both) lacks the minimum of votes
       isPong == op.o = "response_in" /\ ~Unres(e) /\ op.body.t = "pong" /\ "vote" \in DOMAIN op /\ op.req \notin mm.answered
                 /\ \E i \in 1..Len(mm.reqs) : mm.reqs[i].rid = op.req /\ mm.reqs[i].t = "ping"
-      has4 == Cardinality({i \in 1..Len(mm.votes) : ~IsV6(mm.votes[i].sock)}) >= mm.cfg.vote_min
-      has6 == Cardinality({i \in 1..Len(mm.votes) : IsV6(mm.votes[i].sock)}) >= mm.cfg.vote_min
+      \* votes live VOTEMS of virtual time (op "age"); expired votes count for nothing
+      live == SelectSeq(mm.votes, LAMBDA v : v.age < mm.cfg.vote_ms)
+      has4 == Cardinality({i \in 1..Len(live) : ~IsV6(live[i].sock)}) >= mm.cfg.vote_min
+      has6 == Cardinality({i \in 1..Len(live) : IsV6(live[i].sock)}) >= mm.cfg.vote_min
       needMore == mm.cfg.mode = "dual" /\ ((~has4 /\ has6 /\ ~IsV6(op.vote)) \/ (has4 /\ ~has6 /\ IsV6(op.vote)) \/ (~has4 /\ ~has6))
       eligible == isPong /\ (needMore \/ \E i \in 1..Len(mm.table) : mm.table[i][1] = op.from /\ mm.table[i][3] = "C" /\ mm.table[i][4] = "O")
-      votes1 == IF eligible THEN SelectSeq(mm.votes, LAMBDA v : ~(v.voter = op.from /\ IsV6(v.sock) = IsV6(op.vote))) \o <<[voter |-> op.from, sock |-> op.vote]>> ELSE mm.votes
+      votes0 == IF op.o = "age" THEN [i \in 1..Len(mm.votes) |-> [mm.votes[i] EXCEPT !.age = @ + op.ms]] ELSE mm.votes
+      votes1 == IF eligible THEN SelectSeq(votes0, LAMBDA v : ~(v.voter = op.from /\ IsV6(v.sock) = IsV6(op.vote))) \o <<[voter |-> op.from, sock |-> op.vote, age |-> 0]>> ELSE votes0
   IN [mm EXCEPT !.running = @ /\ op.o # "shutdown", !.xs = xs2, !.votes = votes1,
                 !.answered = IF op.o \in {"response_in", "fail"} /\ ~Unres(e) /\ ~(op.o = "response_in" /\ op.body.t = "nodes" /\ op.body.total > 1) THEN @ \cup {op.req} ELSE @,
                 !.offered = IF op.o \in {"established", "add_enr"} THEN @ \cup {op.id} ELSE @,
@@ -180,7 +184,7 @@ C12Viol(mm, m2, e) ==
 VCount(vs, s) == Cardinality({i \in 1..Len(vs) : vs[i].sock = s})
 ThrUp(n) == (7 * n + 5) \div 10          \* round(0.7 n); where 0.7 n is a half (n = 5) the larger rounding is accepted
 C17Change(mm, m2, e, old, new, fam6) ==
-  LET vs == SelectSeq(m2.votes, LAMBDA v : IsV6(v.sock) = fam6)
+  LET vs == SelectSeq(m2.votes, LAMBDA v : IsV6(v.sock) = fam6 /\ v.age < mm.cfg.vote_ms)
       socks == {vs[i].sock : i \in 1..Len(vs)} IN
   (IF ~(e.op.o = "response_in" /\ ~Unres(e) /\ e.op.body.t = "pong") THEN {"C17.NotByPong"} ELSE {})
   \cup (IF VCount(vs, new) < mm.cfg.vote_min THEN {"C17.BelowMinimum"} ELSE {})
@@ -199,7 +203,7 @@ Next ==
   /\ LET e == Rec[l] IN
      IF e.op.o = "reset"
      THEN /\ m' = [M0 EXCEPT !.cfg = [mode |-> Get(e.op, "mode", "ip4"), filter |-> Get(e.op, "filter", "all"),
-                                       maxnodes |-> Get(e.op, "maxnodes", 16), vote_min |-> Get(e.op, "vote_min", 2)],
+                                       maxnodes |-> Get(e.op, "maxnodes", 16), vote_min |-> Get(e.op, "vote_min", 2), vote_ms |-> 1000 * Get(e.op, "vote_dur", 3600)],
                              !.local = e.obs.local]
           /\ t' = T0 /\ UNCHANGED <<viols, sr>>
      ELSE /\ m' = MonStep(m, e)
